@@ -3,7 +3,9 @@ CONSTANTS
   Sizes = {0, 1, 8192, 8193, 16385, 70000}
   MaxCalls = 5
   IgnoreEmptyWrites = TRUE
+  CloseOnDrop = FALSE
 INVARIANT ZeroChunkOnlyTerminates
 INVARIANT BodyDecodesBack
+INVARIANT TruncatedNeverTerminated
 INVARIANT Emit
 CHECK_DEADLOCK FALSE
